@@ -13,8 +13,15 @@ ASSUMPTIONS = [
     "does create the parent directories of products, the property speaks of regular files",
     "'had the dry run not taken place' is realised by restoring the complete project directory (including .pytask) from a copy that "
     "preserves bytes, modes and mtimes at the same absolute path; the restore itself is checked by a snapshot",
-    "the superset and equality clauses are asserted when no failure limit is set (with max_failures the set of processed tasks depends "
-    "on the hash-seed dependent order; such builds are compared with the model only)",
+    "failure limits (max_failures / stop_after_first_failure) count FAILED tasks; a dry run fails a task only when a dependency is missing, so the "
+    "superset clause is asserted with a limit too whenever the dry run reports no FAIL (the limit must not cut the announcement); with a limit and "
+    "a failing dry run the processed set depends on the hash-seed dependent order and is compared with the model only; equality of the executed "
+    "sets (clause 4) is asserted without a limit",
+    "provisional stream: projects with DirectoryNode producers / consumers (generator impl.prov_api, no task generators) go through the same twin "
+    "experiment with the implementation-only oracle (the static engine model has no directory nodes; those are C18's model)",
+    "in-process stream: dry run and build in ONE interpreter are compared with the build alone in its own process; restricted to prefix-style task "
+    "functions (with pytask marks) because functions declared with @task are not collected by a second build of one interpreter at all "
+    "(DESIGN §6 F7, in C15's scope)",
     "the observed schedules of all three builds are replayed in the Lean engine; theorems hold for every legal schedule",
     "sha256 collision freedom (contents are compared as integers in the model)",
 ]
@@ -23,21 +30,27 @@ EDITS = ["write", "write", "revert", "rewrite_same", "touch", "delete_input", "b
 PREFIX_CFGS = [{}, {}, {}, {"force": True}, {"dry": True}, {"maxfail": 1}, {"k": "task_t00x"}, {"k": "task_t01x or task_t02x"},
                {"m": "markone"}, {"k": "not task_t01x"}]
 TWIN_CFGS = [{}, {}, {}, {"force": True}, {"force": True}, {"k": "task_t00x or task_t02x"}, {"k": "not task_t01x"}, {"m": "markone"},
-             {"m": "not marktwo"}, {"force": True, "k": "task_t01x"}, {"maxfail": 1}, {"k": "task_t03x", "m": "markone or marktwo"}]
+             {"m": "not marktwo"}, {"force": True, "k": "task_t01x"}, {"maxfail": 1}, {"k": "task_t03x", "m": "markone or marktwo"},
+             {"maxfail": 1}, {"maxfail": 2}, {"maxfail": 1, "force": True}]
+INPROC_EDITS = ["write", "write", "revert", "touch", "delete_input", "bump", "tamper", "delete_product"]
 
 
 # ------------------------------------------------------------------------------------------------
 # oracle (implementation observations only)
 # ------------------------------------------------------------------------------------------------
 
-def oracle(hist, res):
+def _names(obs, id_of):
+    return {id_of(r[0]): r[1] for r in obs.get("reports", [])}
+
+
+def oracle(hist, res, id_of=engine.name_to_id):
     bad = []
     tw = res["twin"]
     cfg = tw["cfg"]
     d, a, b = tw["dry"]["obs"], tw["a"]["obs"], tw["b"]["obs"]
     for key, o in (("dry run", d), ("build after the dry run", a), ("build without the dry run", b)):
-        if o.get("raised") or o.get("died"):
-            bad.append(("returns", f"{key}: build() raised {o.get('raised')} / died", None))
+        if o.get("raised") or o.get("died") or o.get("timeout"):
+            bad.append(("returns", f"{key}: build() raised {o.get('raised')} / died / did not end", None))
     if bad:
         return bad
     if tw["restore_changes"]:
@@ -48,18 +61,39 @@ def oracle(hist, res):
     # 2. no task function executed by the dry run
     if d["log"]:
         bad.append(("nolog", f"the dry run executed task bodies: {d['log'][:6]}", None))
-    if cfg.get("maxfail") is None and d.get("exit") != 4:
-        announced = {t for t, o in engine.outcomes(d).items() if o == "WOULD_BE_EXECUTED"}
-        ex_a, ex_b = set(engine.executed(a)), set(engine.executed(b))
-        # 3. superset
+    bad += relational("", cfg, tw.get("spec"), d, a, b, id_of)
+    if tw.get("inproc"):
+        # the same two builds in ONE interpreter, compared with the build alone (own process) from the same state
+        di, ai = tw["inproc"]["dry"]["obs"], tw["inproc"]["a"]["obs"]
+        if di.get("raised") or ai.get("raised"):
+            bad.append(("returns", f"in one interpreter: build() raised {di.get('raised')} / {ai.get('raised')}", None))
+        else:
+            if di["log"]:
+                bad.append(("nolog", f"in one interpreter: the dry run executed task bodies: {di['log'][:6]}", None))
+            bad += relational("in one interpreter: ", cfg, tw.get("spec"), di, ai, b, id_of)
+    return bad
+
+
+def relational(pfx, cfg, spec, d, a, b, id_of):
+    """clauses 3 and 4. A failure limit (max_failures / stop_after_first_failure) counts FAILED tasks; a dry run fails a task
+    only when a dependency is missing, so a dry run that reports no FAIL must have announced everything the build executes, with or
+    without a limit. With a limit AND a failing dry run the announced set depends on the hash-seed dependent order: not asserted."""
+    bad = []
+    if d.get("exit") == 4:
+        return bad
+    dout, aout = _names(d, id_of), _names(a, id_of)
+    announced = {t for t, o in dout.items() if o == "WOULD_BE_EXECUTED"}
+    ex_a, ex_b = set(engine.executed(a)), set(engine.executed(b))
+    limited = cfg.get("maxfail") is not None
+    if not limited or "FAIL" not in dout.values():
         if not ex_a <= announced:
-            bad.append(("superset", f"the build after the dry run executed {sorted(ex_a - announced)} which the dry run did not announce "
-                                    f"(dry outcomes {engine.outcomes(d)}, build outcomes {engine.outcomes(a)})",
-                        classify_f20(tw["spec"], cfg, ex_a - announced, engine.outcomes(d))))
-        # 4. non-interference
+            bad.append(("superset", f"{pfx}the build after the dry run executed {sorted(ex_a - announced)} which the dry run did not announce "
+                                    f"(options {cfg}, dry outcomes {dout}, build outcomes {aout})",
+                        classify_f20(spec, cfg, ex_a - announced, dout) if spec and "pats" not in spec else None))
+    if not limited:
         if ex_a != ex_b:
-            bad.append(("noninterf", f"after a dry run the build executed {sorted(ex_a)}, without the dry run {sorted(ex_b)} "
-                                     f"(outcomes after dry run {engine.outcomes(a)}, without {engine.outcomes(b)})", None))
+            bad.append(("noninterf", f"{pfx}after a dry run the build executed {sorted(ex_a)}, without the dry run {sorted(ex_b)} "
+                                     f"(outcomes after dry run {aout}, without {_names(b, id_of)})", None))
     return bad
 
 
@@ -128,7 +162,7 @@ def systematic():
             "missing-input": [["build", {}], ["delete", 100]],
         }
         for sname, steps in states.items():
-            for tw in ({}, {"force": True}, {"k": "task_t01x"}, {"m": "markone"}):
+            for tw in ({}, {"force": True}, {"k": "task_t01x"}, {"m": "markone"}, {"maxfail": 1}):
                 hs.append({"tag": f"sys-{'+'.join(mark) or 'plain'}-{sname}", "spec": copy.deepcopy(spec), "steps": copy.deepcopy(steps), "twin": dict(tw)})
     return hs
 
@@ -140,8 +174,8 @@ def histories(ctx):
     if ctx.thorough:
         hs += sysl
     else:
-        hs += rng.sample(sysl, min(len(sysl), ctx.scale(36, 0)))
-    for i in range(ctx.scale(70, 900)):
+        hs += rng.sample(sysl, min(len(sysl), ctx.scale(30, 0)))
+    for i in range(ctx.scale(44, 800)):
         spec = engine.gen_spec(rng, nt=(2, 7), after_p=0.25, after_needs_prods=True, user_markers=True,
                                marks=(("skip", 0.07), ("skipif_true", 0.05), ("skipif_false", 0.05), ("persist", 0.3), ("try_first", 0.1), ("try_last", 0.1)),
                                behs=("ok", "ok", "ok", "ok", "ok", "early", "late", "omit"))
@@ -155,7 +189,101 @@ def histories(ctx):
             h["steps"].append(["setbeh", rng.choice(fails)["id"], "ok"])
         h["twin"] = dict(rng.choice(TWIN_CFGS))
         hs.append(h)
+    hs += [inproc_history(rng) for _ in range(ctx.scale(12, 120))]
+    hs += [prov_history(rng) for _ in range(ctx.scale(22, 300))]
     return hs
+
+
+def inproc_history(rng):
+    """prefix-style task functions carrying pytask marks; the twin builds additionally run in ONE interpreter"""
+    from impl import project
+    spec = engine.gen_spec(rng, nt=(2, 6), after_p=0.0, prodless_p=0.05, user_markers=True, styles=("default", "annotated"),
+                           marks=(("skipif_false", 0.3), ("persist", 0.2), ("try_first", 0.25), ("try_last", 0.2), ("skip", 0.04)),
+                           behs=("ok", "ok", "ok", "ok", "ok", "ok", "early"))
+    h = histgen.random_history(rng, spec, rng.choice([0, 0, 1, 2, 3, 4]), INPROC_EDITS, [{}, {}, {"force": True}, {"k": "task_t00x"}, {"maxfail": 1}])
+    h["twin"] = dict(rng.choice([{}, {}, {}, {"force": True}, {"k": "not task_t00x"}, {"m": "not marktwo"}, {"maxfail": 1}]))
+    h["tag"] = "inproc"
+    mods = sorted({t["module"] for t in spec["tasks"]})
+    h["inproc"] = not any("@task" in project.render_module(spec, m) for m in mods)
+    return h
+
+
+def prov_history(rng):
+    """DirectoryNode producers (count and contents steered by inputs) and consumers of the same patterns, persist / try_first marks,
+    a plain task further down; states: fresh, built, built + edits (re-run of the producer only, of a consumer only, files dropped in or
+    removed by hand)."""
+    from impl import prov_api
+    nn, nt = [100], [1]
+    pats, tasks, inputs = {}, [], {}
+
+    def node(content=None):
+        n = nn[0]
+        nn[0] += 1
+        if content is not None:
+            inputs[str(n)] = content
+        return n
+
+    def tid():
+        t = nt[0]
+        nt[0] += 1
+        return t
+
+    def pat(d, kind):
+        pid = prov_api.pat_id(d, kind)
+        pats[str(pid)] = {"dir": d, "kind": kind}
+        return pid
+    ndirs = rng.randint(1, 2)
+    produced = []
+    for d in range(ndirs):
+        pid = pat(d, rng.choice(["f", "f", "g", "all"]))
+        prods = [node()] if rng.random() < 0.2 else []
+        tasks.append({"id": tid(), "cnt": node(rng.randint(1, 4)), "deps": [node(rng.randint(1, 50))] if rng.random() < 0.7 else [], "pdeps": [],
+                      "prods": prods, "pprods": [pid], "gen": False, "fails": False, "parent": None,
+                      "pstyle": rng.choice(["param", "return"]), "dstyle": "default", "try_first": rng.random() < 0.15})
+        produced.append(pid)
+    for _ in range(rng.choice([1, 1, 2, 2, 3])):
+        pd = [rng.choice(produced)]
+        if rng.random() < 0.2:
+            q = pat(rng.randrange(ndirs), rng.choice(["f", "g"]))
+            if q not in pd:
+                pd.append(q)
+        tasks.append({"id": tid(), "cnt": None, "deps": [node(rng.randint(1, 50))] if rng.random() < 0.4 else [], "pdeps": pd,
+                      "prods": [node() for _ in range(rng.choice([1, 1, 1, 2]))], "pprods": [], "gen": False, "fails": False, "parent": None,
+                      "pstyle": "param", "dstyle": rng.choice(["default", "annotated"]), "persist": rng.random() < 0.15,
+                      "try_first": rng.random() < 0.15, "dname": rng.random() < 0.2})
+    cons_prods = [p for t in tasks for p in t["prods"] if t["pdeps"]]
+    if cons_prods and rng.random() < 0.6:
+        tasks.append({"id": tid(), "cnt": None, "deps": [rng.choice(cons_prods)], "pdeps": [], "prods": [node()], "pprods": [], "gen": False,
+                      "fails": False, "parent": None, "pstyle": "param", "dstyle": "default"})
+    spec = {"pats": pats, "tasks": tasks, "perfile": {}, "inputs": inputs, "version": 0}
+    steps = []
+    for pid in pats:
+        if int(pid) not in produced:
+            for n in rng.sample(list(prov_api.pat_range(spec, pid)), rng.randint(1, 3)):
+                steps.append(["write", n, rng.randint(1, 9)])
+    cnts = [t["cnt"] for t in tasks if t.get("cnt") is not None]
+    prod_deps = [n for t in tasks if t["pprods"] for n in t["deps"]]
+    cons_deps = [n for t in tasks if t["pdeps"] for n in t["deps"]]
+    files = sorted({n for pid in pats for n in prov_api.pat_range(spec, pid)})
+    allprods = [p for t in tasks for p in t["prods"]]
+    for _ in range(rng.choice([0, 1, 1, 1, 2])):
+        steps.append(["build", dict(rng.choice([{}, {}, {}, {"force": True}]))])
+        for _ in range(rng.choice([0, 1, 1, 2])):
+            k = rng.random()
+            if k < 0.3:
+                steps.append(["write", rng.choice(cnts), rng.randint(0, 5)])
+            elif k < 0.55 and prod_deps:
+                steps.append(["write", rng.choice(prod_deps), rng.randint(51, 99)])
+            elif k < 0.7 and cons_deps:
+                steps.append(["write", rng.choice(cons_deps), rng.randint(51, 99)])
+            elif k < 0.8:
+                steps.append(["write", rng.choice(files), rng.randint(1, 9)])
+            elif k < 0.9:
+                steps.append(["delete", rng.choice(files)])
+            elif allprods:
+                steps.append(["delete", rng.choice(allprods)])
+    return {"tag": "prov", "stream": "prov", "spec": spec, "steps": steps,
+            "twin": dict(rng.choice([{}, {}, {}, {}, {"force": True}, {"maxfail": 1}]))}
 
 
 # ------------------------------------------------------------------------------------------------
@@ -184,10 +312,13 @@ def campaign(ctx, hs, nservers=None):
     nservers = nservers or 8
     hashseeds = [rng.randrange(1, 4_000_000_000) for _ in range(nservers)]
     ctx.extra["hash_seeds"] = hashseeds
-    pool = builder.Pool(hashseeds)
+    from impl import prov_api
+    pool = prov_api.TimedPool(hashseeds)      # build servers with a deadline per build
     try:
         def one(args):
             i, h = args
+            if h.get("stream") == "prov":
+                return dryrun.run_prov_twin(pool.pick(i), h)
             return dryrun.run_twin(pool.pick(i), h)
         with ThreadPoolExecutor(max_workers=nservers) as ex:
             results = list(ex.map(one, enumerate(hs)))
@@ -196,6 +327,8 @@ def campaign(ctx, hs, nservers=None):
     drv = ctx.driver() if ctx.use_model else None
     for h, res in zip(hs, results):
         tw = res["twin"]
+        prov = h.get("stream") == "prov"
+        ctx.dist["stream=" + ("provisional" if prov else "in-process+static" if tw.get("inproc") else "static")] += 1
         d, a = tw["dry"]["obs"], tw["a"]["obs"]
         dout = engine.outcomes(d) if not d.get("raised") else {}
         announced = [t for t, o in dout.items() if o == "WOULD_BE_EXECUTED"]
@@ -203,7 +336,7 @@ def campaign(ctx, hs, nservers=None):
         nt = bool(announced) and bool(executed)
         sample = None
         if nt:
-            sample = {"tasks": [{k: t[k] for k in ("id", "deps", "prods", "after", "marks", "beh") if t.get(k)} for t in tw["spec"]["tasks"]],
+            sample = {"tasks": [{k: t[k] for k in ("id", "deps", "prods", "after", "marks", "beh", "cnt", "pdeps", "pprods", "persist") if t.get(k)} for t in tw["spec"]["tasks"]],
                       "prefix": [s[:3] if s[0] != "respec" else ["respec"] for s in h["steps"]][:8], "twin_cfg": tw["cfg"],
                       "dry_outcomes": {str(k): v for k, v in dout.items()}, "executed_after_dry": executed,
                       "executed_without_dry": engine.executed(tw["b"]["obs"]), "files_snapshotted": tw["nfiles"]}
@@ -220,7 +353,7 @@ def campaign(ctx, hs, nservers=None):
         ctx.dist[f"dry-exit={d.get('exit')}"] += 1
         for kind, msg, finding in oracle(h, res):
             ctx.violation(f"{kind}: {msg}", {"history": h, "layer": "c10-twin"}, finding=finding)
-        if drv is not None:
+        if drv is not None and not prov:
             dis = dryrun.replay_twin_in_model(drv, h, res, engine.sel_eval)
             ctx.traces_validated += 1
             for what, iv, mv in dis[:1]:
@@ -233,9 +366,11 @@ def run(ctx):
     ctx.rule = ("generated projects (skip / skipif / persist / try_first / try_last / user markers, failing bodies) brought into a recorded state by 0-9 "
                 "steps (builds: plain, forced, dry, max_failures=1, -k, -m; edits: write / revert / identical rewrite / touch / delete input, bump / revert "
                 "module, tamper / delete product, rewire, add task, switch a failure off), then dry run + real build vs. real build alone from the restored "
-                "state (plain, force, -k, -m, combinations, max_failures=1); corpus (F19 witness, persist chains) and a systematic family (marker on the "
-                "middle task of a chain × 10 previous states × 4 configurations) first; non-trivial = the dry run announced ≥1 task and the following real "
-                "build executed ≥1 task; distinct by canonical (spec, prefix steps, twin configuration)")
+                "state (plain, force, -k, -m, combinations, max_failures 1/2 ± force); corpus (F19 / F20 witnesses, persist chains) and a systematic family "
+                "(marker on the middle task of a chain × 10 previous states × 5 configurations) first; in-process stream: prefix-style task functions with "
+                "pytask marks, the two builds additionally in ONE interpreter; provisional stream: DirectoryNode producers / consumers (fresh, built, "
+                "producer-only / consumer-only re-runs, files dropped in or removed by hand), implementation-only oracle; non-trivial = the dry run announced "
+                "≥1 task and the following real build executed ≥1 task; distinct by canonical (spec, prefix steps, twin configuration)")
     campaign(ctx, histories(ctx))
     # self-test of the oracle: the F20 witness (corpus) must still be flagged — or have been repaired
     ctx.extra["f20_witness_detected"] = "F20" in {v["finding"] for v in ctx.violations}
